@@ -52,7 +52,7 @@ try:
     # remove demo files from the tree (untracked files outside SEED)
     sh("git clean -fdq -e SEED")
     if not nosuite:
-        rc, out, dt = sh("go test -vet=off -count=1 ./... 2>&1 | grep -v 'no test files' | grep -v '^ok' ", 3600)
+        rc, out, dt = sh("go test -vet=off -count=1 -p 4 -timeout 90m ./... 2>&1 | grep -v 'no test files' | grep -v '^ok' ", 3 * 3600)
         fails = [l for l in out.splitlines() if l.startswith("FAIL") or l.startswith("--- FAIL") or l.startswith("panic:")]
         pk = [l.split()[1] for l in out.splitlines() if l.startswith("FAIL\t") and len(l.split()) > 1]
         other = [x for x in pk if not x.endswith("contrib/gdaxfeeder")]
